@@ -342,3 +342,64 @@ Lemma entry_new_default_sources_spec : forall route key mask,
   /\ e_sources (entry_new route key mask None) <> 0
   /\ e_key (entry_new route key mask None) = key /\ e_mask (entry_new route key mask None) = mask.
 Proof. intros route key mask. repeat split. vm_compute. discriminate. Qed.
+
+(* ------------------------------------------------------------------------------------------------ *)
+(** * Audit follow-up: necessity of nonempty_sources, further non-vacuity examples *)
+
+(* R: the "at least one source direction" guard is necessary for the property AS WORDED: an entry with
+   the empty source set merges with a straight-through entry of the same route; the merged entry is
+   default-routable and is removed; the first entry's key is then matched by nothing although that entry
+   did not go straight through from a single link (it has no source at all, so no packet is affected) *)
+Definition ex_nosrc : table := [mkEntry 4 0 4294967295 0; mkEntry 4 1 4294967295 32].
+
+Lemma empty_sources_witness :
+  table32 ex_nosrc /\ sorted_by_generality ex_nosrc
+  /\ oc_minimise ex_nosrc None = Ok [] /\ minimise_table ex_nosrc None = Ok [] /\ ~ route_eq ex_nosrc [].
+Proof.
+  split; [| split; [| split; [vm_compute; reflexivity | split; [vm_compute; reflexivity |]]]].
+  - intros e [<- | [<- | []]]; vm_compute; repeat split; discriminate.
+  - apply sortedz_sorted_by_generality. vm_compute.
+    repeat split; intros y Hy; repeat (destruct Hy as [<- | Hy]); try discriminate; destruct Hy.
+  - intro H. specialize (H 0 (mkEntry 4 0 4294967295 0) ltac:(unfold key32; lia) eq_refl).
+    cbn [lookup find] in H. destruct H as [l [Hl [Hs _]]]. cbn [e_sources] in Hs.
+    assert (Hb : Z.testbit 0 l = Z.testbit (Z.shiftl 1 l) l) by (rewrite <- Hs; reflexivity).
+    rewrite Z.bits_0, Z.shiftl_1_l, Z.pow2_bits_eqb, Z.eqb_refl in Hb by lia. discriminate.
+Qed.
+
+(* a table of the domain, listed by generality and genuinely overlapping (1000 lies inside X000, which
+   has another route), on which refinement prunes the candidate merge: _get_all_merges proposes entries
+   {0, 1, 2}; merging all three would put 1000 below X000, so the up-check removes it and the merge applied
+   is {0, 1} -> 0XXX, inserted below X000 *)
+Definition ex_overlap : table :=
+  [mkEntry 4 3 4294967295 16777216; mkEntry 4 4 4294967295 16777216; mkEntry 4 8 4294967295 16777216;
+   mkEntry 2 0 4294967287 16777216].
+
+Lemma overlap_refined_example :
+  minimiser_domain ex_overlap
+  /\ (exists a b k, In a ex_overlap /\ In b ex_overlap /\ a <> b /\ matches a k = true /\ matches b k = true)
+  /\ all_merges ex_overlap = [[0; 1; 2]%nat]
+  /\ (exists m, best_merge ex_overlap [] = Ok m /\ m_entries m = [0; 1]%nat)
+  /\ oc_minimise ex_overlap None
+     = Ok [mkEntry 4 8 4294967295 16777216; mkEntry 2 0 4294967287 16777216; mkEntry 4 0 4294967288 16777216].
+Proof.
+  split; [| split; [| split; [vm_compute; reflexivity | split; [| vm_compute; reflexivity]]]].
+  - split; [| split].
+    + intros e [<- | [<- | [<- | [<- | []]]]]; vm_compute; repeat split; discriminate.
+    + intros e [<- | [<- | [<- | [<- | []]]]]; vm_compute; discriminate.
+    + left. apply sortedz_sorted_by_generality. vm_compute.
+      repeat split; intros y Hy; repeat (destruct Hy as [<- | Hy]); try discriminate; destruct Hy.
+  - exists (mkEntry 4 8 4294967295 16777216), (mkEntry 2 0 4294967287 16777216), 8.
+    split; [right; right; left; reflexivity | split; [right; right; right; left; reflexivity |]].
+    split; [discriminate | split; vm_compute; reflexivity].
+  - eexists. split; [vm_compute; reflexivity | reflexivity].
+Qed.
+
+(* the empty table, and a failure with the default methods that reports the best size reached *)
+Lemma front_end_examples :
+  minimiser_domain [] /\ minimise_table [] None = Ok [] /\ minimise_tables [((0, 0), [])] TNone = TablesOk []
+  /\ minimise_table ex_table (Some 0) = Failed 2
+  /\ minimise_table ex_table (Some 2) = Ok [mkEntry 8 2 15 16777216; mkEntry 4 0 14 16777216].
+Proof.
+  split; [| repeat split; vm_compute; reflexivity].
+  split; [intros e [] | split; [intros e [] |]]. left. intros i j a b _ Ha. destruct i; discriminate.
+Qed.
